@@ -455,16 +455,43 @@ func (x *ctx) model(st *state, fr *frame, key string, callee *ssa.Function, args
 	case "time.Duration.Nanoseconds":
 		return x.ret1(st, args[0]), true
 	case "encoding/gob.Decoder.Decode":
-		// decoding stores an arbitrary value into the target (wire-format fidelity is not modelled) or fails
-		x.assumed["encoding/gob: Decode stores an arbitrary value or returns an error; Encode returns an arbitrary error"] = true
+		// decoding receives an arbitrary value W (what the wire holds is not modelled) or fails. As documented for
+		// encoding/gob, fields that hold the zero value are not transmitted and the decoder leaves the corresponding
+		// fields of the target untouched: target.f = W.f unless W.f is zero, in which case target.f keeps its content.
+		// The wire value of the last Decode is recorded in ghost_decoded_<Field>.
+		x.assumed["encoding/gob: Decode receives an arbitrary value (zero-valued fields leave the target's field untouched) or returns an error; Encode returns an arbitrary error"] = true
 		if len(args) == 2 {
 			tgt := args[1]
 			switch {
 			case tgt.ptr != nil && tgt.ptr.cell > 0:
-				st.cells[tgt.ptr.cell] = x.freshVal("decoded", x.cellRootType[tgt.ptr.cell])
+				t := x.cellRootType[tgt.ptr.cell]
+				w := x.freshVal("decoded", t)
+				old, had := st.cells[tgt.ptr.cell]
+				nv := w
+				if had {
+					nv = x.gobMerge(w, old, x.zeroVal(t))
+				}
+				st.cells[tgt.ptr.cell] = nv
+				if stT, ok := t.Underlying().(*types.Struct); ok && w.agg && x.spec == 0 {
+					for i := 0; i < stT.NumFields() && i < len(w.fields); i++ {
+						if w.fields[i].t.s != "" {
+							x.ghostWrite(st, "ghost_decoded_"+stT.Field(i).Name(), nil, w.fields[i].t)
+						}
+					}
+				}
 			case tgt.t.s != "" && x.lastAllocType[tgt.t.s] != nil:
 				t := x.lastAllocType[tgt.t.s]
-				x.writeHeap(st, &loc{base: tgt.t, key: structName(t), typ: t}, structName(t), t, x.freshVal("decoded", t))
+				w := x.freshVal("decoded", t)
+				l := &loc{base: tgt.t, key: structName(t), typ: t}
+				old := x.readHeap(st, l, structName(t), t)
+				x.writeHeap(st, l, structName(t), t, x.gobMerge(w, old, x.zeroVal(t)))
+				if stT, ok := t.Underlying().(*types.Struct); ok && w.agg && x.spec == 0 {
+					for i := 0; i < stT.NumFields() && i < len(w.fields); i++ {
+						if w.fields[i].t.s != "" {
+							x.ghostWrite(st, "ghost_decoded_"+stT.Field(i).Name(), nil, w.fields[i].t)
+						}
+					}
+				}
 			}
 		}
 		return x.ret1(st, scalar(x.freshTerm("decodeErr", sRef))), true
@@ -753,8 +780,10 @@ func (x *ctx) mapSorts(t types.Type) (ks, vs srtT, vt types.Type) {
 	return ks, vs, m.Elem()
 }
 
-func (x *ctx) mapP(ks srtT) string          { return "ghost_mapP_" + symName(ks.name) }
-func (x *ctx) mapV(ks, vs srtT) string      { return "ghost_mapV_" + symName(ks.name) + "_" + symName(vs.name) }
+func (x *ctx) mapP(ks srtT) string { return "ghost_mapP_" + symName(ks.name) }
+func (x *ctx) mapV(ks, vs srtT) string {
+	return "ghost_mapV_" + symName(ks.name) + "_" + symName(vs.name)
+}
 func (x *ctx) mapLen(st *state, m term) term {
 	n := x.ghostGet(st, "ghost_mapN", []srtT{sRef}, sInt, []term{m})
 	st.define(x.binop(token.GEQ, n, mkbv(0, 64), types.Typ[types.Int]).s)
@@ -916,4 +945,19 @@ func (x *ctx) mapNext(st *state, fr *frame, in *ssa.Next) val {
 	st.heap["G:visited"] = n
 	_ = vt
 	return val{agg: true, fields: []val{scalar(okT), scalar(k), scalar(v)}}
+}
+
+// gobMerge: field-wise, the received value unless it is the zero value (then the target keeps what it held).
+func (x *ctx) gobMerge(w, old, zero val) val {
+	if w.agg && old.agg && zero.agg && len(w.fields) == len(old.fields) && len(w.fields) == len(zero.fields) {
+		out := val{agg: true}
+		for i := range w.fields {
+			out.fields = append(out.fields, x.gobMerge(w.fields[i], old.fields[i], zero.fields[i]))
+		}
+		return out
+	}
+	if w.t.s == "" || old.t.s == "" || zero.t.s == "" || w.t.srt.name != old.t.srt.name || w.t.srt.name != zero.t.srt.name {
+		return w
+	}
+	return scalar(ite(eq(w.t, zero.t), old.t, w.t))
 }
